@@ -2,6 +2,7 @@ mod c11;
 mod drive;
 mod front;
 mod front2;
+mod pygen;
 mod rustgen;
 
 use pdlmc_core::graph::Tier;
@@ -37,6 +38,7 @@ fn main() {
                 "C10" => front2::check_c10(tier),
                 "C12" => front2::check_c12(tier),
                 "C11" => c11::check(tier),
+                "C13" => pygen::check(tier),
                 p @ ("C01" | "C02" | "C03" | "C04" | "C05" | "C06" | "C15" | "C17" | "C18") => rustgen::check(p, tier),
                 _ => usage(),
             };
